@@ -55,9 +55,15 @@ MANIFEST = {
             "core (any valid-in/valid-out panic-free operators and built-ins).  PARTIAL / explicit side condition: percentile's list "
             "length <= 2^53 is NOT discharged (no resource bound of the model rules such a list out): the evaluator-level theorems "
             "are stated for builtin_all_fit o = builtin_all o except that percentile of a longer list is an error "
-            "(C01_percentile_guard_is_the_only_difference); valid_expr of parsed programs: C01_parsed_number_literal_valid (the one place where the text -> AST model creates a "
-            "number, PegToItems.number_item, only creates valid ones) + the ALL stream evaluating valid_progb on every parsed "
-            "program; NOT a theorem over the whole of PegToItems + Pratt.  "
+            "(C01_percentile_guard_is_the_only_difference); valid_expr of parsed programs is PROVED over the whole of PegToItems + Pratt (round 7, PF2): C01_parsed_items_valid "
+            "(every item conv builds, any pair tree), C01_pratt_preserves_valid (any operator table, any fuel), "
+            "C01_parsed_statements_valid / C01_parsed_program_valid (EVERY text); END TO END FROM BYTES: "
+            "C01_text_run_no_panic_all / C01_text_run_panic_only_from_glue - every valid oracle, valid inputs, both profiles, "
+            "every accepted text: the evaluator run over the statements parsed from the bytes never shows a Panic except the "
+            "parse-side glue panic of a statement (pairs_to_expr's own unreachable!), which is reduced to the decidable "
+            "text_streams_ok (C01_text_run_no_panic_streams; C01_text_streams_ok_full - the grammar only produces alternating "
+            "operand / operator streams - is a Prop, counted 0 by the TEXT-EVAL stream, NOT proved); the ALL stream still "
+            "evaluates valid_progb on every parsed program.  "
             "C01_builtin_call_no_panic_full (stated over EvalInst.builtin_impl, which answers Unmodelled for 50 built-ins) stays a "
             "Definition; its content is the _all theorems.  "
             "parser, formatter, printer, JSON and error-rendering stages and all error spans are library/string code "
